@@ -1125,6 +1125,9 @@ export class ProcGenWrapper {
           nodeDataProxy.replaceDataOnPath(modelLvaluePath, value)
           nodeDataProxy.applyDataUpdates(false)
         })
+      } else if (modelLvaluePath === null) {
+        // the expression is not assignable any more (e.g. the other branch of a conditional is taken)
+        elem.setModelBindingListener(name, () => {})
       }
     }
     this.tryCallPropertyChangeListener(elem, name, v)
